@@ -42,6 +42,8 @@ class Recorder:
         self.fault_hits = 0
         self.fault_fired = False
         self.ctrlc_at = ctrlc_at
+        self.ctrlc_empty_at = 0      # raise KeyboardInterrupt at the k-th idle poll of a consumer (inside its `except queue.Empty` handler)
+        self.empties = 0
         self.gets = 0
         self.threads: dict[int, int] = {}
         self.ids: dict[Any, int] = {}
@@ -87,6 +89,13 @@ class Recorder:
             self.emit({"e": "WEXIT", "thr": self.tid()})
         elif name == "stateful.thread.exit":
             self.emit({"e": "TEXIT", "thr": self.tid()})
+        elif name in ("unit.consumer.empty", "stateful.consumer.empty") and self.ctrlc_empty_at:
+            with self.lock:
+                self.empties += 1
+                fire = self.empties == self.ctrlc_empty_at
+            if fire:
+                self.emit({"e": "CTRLC"})
+                raise KeyboardInterrupt
         elif name == "control.count":
             self.emit({"e": "COUNT", "fails": int(data["failures"]), "limit": bool(data["limit"])})
         f = self.fault
@@ -241,6 +250,8 @@ def run_one(desc: dict, controller: "Recorder | None" = None) -> dict:
 
     unit_phase.WORKER_TIMEOUT = 0.02  # harness process only: shorter polling, same logic
     rec = controller if controller is not None else Recorder(fault=desc.get("fault"), ctrlc_at=desc.get("ctrlc_at", 0))
+    if controller is None:
+        rec.ctrlc_empty_at = desc.get("ctrlc_empty_at", 0)
     # a worker / state-machine thread dying with an uncaught exception is an observation (TDEATH line), not console noise
     threading.excepthook = lambda args: rec.emit({"e": "TDEATH", "err": getattr(args.exc_type, "__name__", "?")})
     nops = len(desc["ops"])
@@ -336,6 +347,11 @@ def run_one(desc: dict, controller: "Recorder | None" = None) -> dict:
         )
         extra_cfg: dict = {}
         extra_exec: dict = {}
+        if desc.get("two_checks"):      # a bad answer (undocumented 5xx) fails TWO checks at once: the failure counter moves by two in one step
+            from schemathesis.checks import not_a_server_error
+            from schemathesis.specs.openapi.checks import status_code_conformance
+
+            extra_exec["checks"] = [not_a_server_error, status_code_conformance]
         if desc.get("shape") == "authprobe":
             from schemathesis.checks import not_a_server_error
             from schemathesis.engine.config import NetworkConfig
